@@ -21,6 +21,8 @@ DECODERS = {
 
 def chunks(h):
     """byte string (hex text) as a list of hexadecimal numerals, 256 bytes each, with a leading 1 nibble"""
+    if not h:
+        return "(@nil N)"
     return cL(["0x1%s%%N" % h[i:i + 512] for i in range(0, len(h), 512)])
 
 
@@ -69,6 +71,14 @@ def case_term(r):
     return "((%s, %s, %s, %s), %s)" % (cN(c["d"]), cN(c["p"]), chunks(c["in"]), x, pack_nums(r["res"]))
 
 
+def known_quadratic(c, r):
+    """mirror of CodecArmor.known_quadratic_armor: armored input longer than 64 kB whose only oracle
+    failure is the timing one"""
+    return (c["d"] in (1, 5, 15) and len(c["in"]) // 2 > 65536
+            and c["in"].startswith(b"BEGINSLATEPACK.".hex())
+            and all(f.startswith("slow:") for f in r["oracle"]))
+
+
 def load(path):
     return [json.loads(l) for l in open(path)]
 
@@ -83,21 +93,24 @@ def run_harness(binp, wd, name, args, env=None):
 
 def eval_model(rows, run_fn="check_case"):
     """-> {row index: [] if model == implementation else [7, model result...]}"""
-    idx = [i for i, r in enumerate(rows) if r["case"]["d"] in MODELLED]
-    # balance the shards: armored inputs cost more (base58 + SHA-256 inside Coq)
-    terms = [case_term(rows[i]) for i in idx]
-    order = sorted(range(len(idx)), key=lambda k: len(rows[idx[k]]["case"]["in"]) * (4 if rows[idx[k]]["case"]["d"] in (1, 5) else 1))
-    nsh = 16
-    buckets = [[] for _ in range(nsh)]
-    for j, k in enumerate(order):
-        buckets[j % nsh].append(k)
-    flat = [k for b in buckets for k in b]
-    shard = max(1, (len(flat) + nsh - 1) // nsh)
-    res = vlib.coq_eval(PROP, "From GW Require Import Base CodecBase CodecSlatepack CodecRun.",
-                        run_fn, [terms[k] for k in flat], shard=shard)
+    idx_all = [i for i, r in enumerate(rows) if r["case"]["d"] in MODELLED]
     out = {}
-    for k, m in zip(flat, res):
-        out[idx[k]] = m
+    # batches keep the 16 parallel coqc processes small (memory)
+    for b0 in range(0, len(idx_all), 6000):
+        idx = idx_all[b0:b0 + 6000]
+        terms = [case_term(rows[i]) for i in idx]
+        # balance the shards: armored inputs cost more (base58 + SHA-256 inside Coq)
+        order = sorted(range(len(idx)), key=lambda k: len(rows[idx[k]]["case"]["in"]) * (4 if rows[idx[k]]["case"]["d"] in (1, 5) else 1))
+        nsh = 16
+        buckets = [[] for _ in range(nsh)]
+        for j, k in enumerate(order):
+            buckets[j % nsh].append(k)
+        flat = [k for b in buckets for k in b]
+        shard = max(1, (len(flat) + nsh - 1) // nsh)
+        res = vlib.coq_eval(PROP, "From GW Require Import Base CodecBase CodecSlatepack CodecRun.",
+                            run_fn, [terms[k] for k in flat], shard=shard)
+        for k, m in zip(flat, res):
+            out[idx[k]] = m
     return out
 
 
@@ -106,6 +119,9 @@ def run(tier, replay):
     wd = vlib.workdir(PROP)
     (binp,) = vlib.build_harness(["c09"])
     proof = vlib.proof_stage(PROP, V, "props/C09.v")
+    okb, logb = vlib.coq_make(["theories/CodecRun.vo"])   # evaluation entry point (not in the theorems' cone)
+    if not okb:
+        raise vlib.Infra("CodecRun.v does not build: " + logb[-1500:])
 
     rows = []
     corpus = sorted(glob.glob(os.path.join(vlib.VERIF, "corpus", PROP, "*.json")))
@@ -127,7 +143,7 @@ def run(tier, replay):
     kinds = collections.Counter()
     per_dec = collections.defaultdict(collections.Counter)
     streams = collections.Counter()
-    divergences, oracle_fail = [], []
+    divergences, oracle_fail, known_slow = [], [], []
     distinct = set()
     slowest, peak = 0, 0
     for i, r in enumerate(rows):
@@ -146,13 +162,21 @@ def run(tier, replay):
             # (a value) or that is a mutation/grammar/boundary case (exercises a guard)
             if r["cls"] == 0 or c.get("s") != "random":
                 distinct.add((c["d"], c["p"], c["in"]))
-        if r["oracle"]:
+        if r["oracle"] and known_quadratic(c, r):
+            known_slow.append(r["us"])
+        elif r["oracle"]:
             oracle_fail.append({"case": {k: c[k] for k in ("d", "p", "in")}, "decoder": DECODERS.get(c["d"]),
                                 "failures": r["oracle"], "msg": r["msg"]})
 
+    if known_slow:
+        if "C09-F1" in {k["id"] for k in vlib.known_findings(PROP)}:
+            V.known_finding("[C09-F1] base58 decoding of an armored slatepack is quadratic in its length: a %d-byte input "
+                            "(max_size on mainnet is 1279262) took %.1f s in SlatepackArmor::decode" % (120030, max(known_slow) / 1e6))
+        else:
+            oracle_fail.append({"case": None, "decoder": "deser_slatepack", "failures": ["slow armored input"], "msg": ""})
     seen = set()
     for f in oracle_fail:
-        key = (f["case"]["d"], f["failures"][0][:40])
+        key = ((f["case"] or {}).get("d"), f["failures"][0][:40])
         if key in seen:
             continue
         seen.add(key)
